@@ -638,7 +638,9 @@ func runC01(c *Ctx) {
 	checkExistsThenPut(c, "C01-R6")
 	checkCreditRewriteFlags(c, "C01-R6")
 	checkTxRecordHashIsTxid(c, "C01-R6")
+	checkNoBulkOverwriteAfterElementWrite(c, "C01-R6")
 	checkRollbackWalk(c, "C01-R4") // "blocks disconnected": every block at or above the target is detached
+	checkCoupledRollback(c, "C01-R4") // ... and only those: the store is rolled back from the height above the new tip
 	checkLoopCarriedStructs(c, "C01-R4", []string{"rollback", "updateMinedBalance"})
 	runLoopCompleteness(c, "C01-R4", []string{"updateMinedBalance", "rollback", "insertMemPoolTx", "removeDoubleSpends", "removeConflict", "deleteUnminedTx"})
 }
@@ -789,6 +791,10 @@ func runC01R3(c *Ctx) {
 // record's inputs, outputs, a block's transactions or a list of hashes/heights
 // process every element: no break / non-error return out of the body.
 func runLoopCompleteness(c *Ctx, rule string, fnNames []string) {
+	runLoopCompletenessN(c, rule, fnNames, 12)
+}
+
+func runLoopCompletenessN(c *Ctx, rule string, fnNames []string, floor int) {
 	p := c.P
 	n := 0
 	for _, fn := range wtxRegion(c, rule, fnNames) {
@@ -814,7 +820,7 @@ func runLoopCompleteness(c *Ctx, rule string, fnNames []string) {
 				"loop must process every element but can be left early: "+strings.Join(exits, "; "))
 		}
 	}
-	c.Floor(rule, "process-all range loops", n, 12)
+	c.Floor(rule, "process-all range loops", n, floor)
 }
 
 // boolFlagsOf: names of fn's boolean parameters and of the boolean fields of its struct-typed parameters.
